@@ -1,5 +1,6 @@
 import Genshi.Wire
 import Genshi.Model.Conc
+import Genshi.Model.ConcNested
 import Driver.C15
 namespace Driver.C16
 open Genshi Genshi.Sexp Genshi.Lru Genshi.Loader Genshi.Conc
@@ -127,6 +128,23 @@ def handle : List Sexp → Option Sexp
           .list (g.ls.cache.items.map fun (k, t) => .list [Driver.C15.keyS k, ofNat t.obj]),
           .list (g.completed.map fun (t, _, r) => .list [ofNat t, resS r]),
           ofNat g.ls.nextObj, ofBool g.owner.isNone])
+  -- `C16 nested <cap> <autoReload> <callback> ( path ) ( setup ops ) ( ( tid Q… ) … )`: the
+  -- sequential specification with nested loads (`loadN`), one top-level load after the other
+  | [.atom "nested", cap, ar, cb, .list path, .list setup, .list loads] => do
+      let cap ← cap.toNat?; let ar ← ar.toBool?; let cb ← cb.toBool?
+      let path ← path.mapM Driver.C15.entry?
+      let setup ← setup.mapM Driver.C15.hop?
+      let cfg : Cfg := ⟨path, ar, cap, cb⟩
+      let loads ← loads.mapM fun
+        | .list [t, q] => do let t ← t.toNat?; let q ← creq? path.isEmpty q; pure (t, q)
+        | _ => none
+      let w := (hrun cfg (World.init cap) setup).1
+      let c : CCfg := ⟨cfg, w.fs, true⟩
+      let out := seqLoadsN c w.ls [] loads
+      pure (.list [.atom "ok",
+        .list (out.1.cache.items.map fun (k, t) => .list [Driver.C15.keyS k, ofNat t.obj]),
+        .list (out.2.map fun (t, _, r) => .list [ofNat t, resS r]),
+        ofNat out.1.nextObj, ofNat out.1.lock, ofNat out.1.cbLog.length])
   | _ => none
 
 end Driver.C16
